@@ -19,8 +19,11 @@ is left as it is because `TestDefrag_experimental_001` pins its result. What is 
 * `C19_partial_shape`     – when the loop reaches every value the result is a prefix of
                             "all values, then all nils", cut at `2·k − 3 − L`.
 
-Not proved: a lifting of `C19_partial_exact` to whole trees (nested Stacks / Conditions); the
-driver evaluates the tree-level class (`DefragSpec.classTags`) and the correspondence run checks it.
+* `C19_partial_tree`      – nested Stacks / Condition expressions: if every stack of the tree is
+                            read-only or in `DefragOK` with the recursion gate open, the whole
+                            tree comes out as specified (sufficient condition; the *necessity* at
+                            tree level is not proved — the driver evaluates the tree-level class
+                            `DefragSpec.classTags` and the correspondence run checks it).
 -/
 
 set_option linter.unusedSimpArgs false
@@ -339,11 +342,134 @@ theorem C19_partial_shape (s : Stk) (hs : SmallLen s.xs.length) (max : Int) (k :
     · simp only [Bool.true_eq_false, false_and, ↓reduceIte, reduceCtorEq]
       rw [List.take_of_length_le (by rw [hWl]; omega)]
 
+/-! ## Nested stacks: a sufficient condition for the whole tree -/
+
+/-- the recursion of `Stack.Defrag` is gated by `IsNesting` of the compacted stack: either a Stack
+element is left, or no element needs any work -/
+def GateOK (xs : List Val) : Prop :=
+  (compact1 xs).any Stk.countsAsNested = true ∨ ∀ v ∈ xs, compactV v = v
+
+/-- one stack of the tree: read-only (left alone), or in the exact success class with the gate open -/
+def NodeOK (max : Int) (c : Cfg) (xs : List Val) : Prop :=
+  roCfg c = true ∨
+    (c.err = none ∧ SmallLen xs.length ∧ DefragOK ((⟨c, xs⟩ : Stk).flag Gen.flag_fwdidx) max xs = true ∧ GateOK xs)
+
+mutual
+/-- every stack of the tree is `NodeOK` -/
+def TreeOKV (max : Int) : Val → Prop
+  | .stk _ c xs => NodeOK max c xs ∧ TreeOKL max xs
+  | .cnd _ _ _ _ ex => TreeOKV max ex
+  | _ => True
+def TreeOKL (max : Int) : List Val → Prop
+  | [] => True
+  | v :: r => TreeOKV max v ∧ TreeOKL max r
+end
+
+theorem TreeOKL_mem (max : Int) : ∀ (xs : List Val) (v : Val), TreeOKL max xs → v ∈ xs → TreeOKV max v := by
+  intro xs
+  induction xs with
+  | nil => intro v _ h; cases h
+  | cons a r ih =>
+    intro v h hv
+    simp only [TreeOKL] at h
+    rcases List.mem_cons.mp hv with rfl | hv
+    · exact h.1
+    · exact ih v h.2 hv
+
+/-- **Nested compaction, where it works.** If every stack of the tree (direct elements in any alias
+form, expressions of nested Conditions) is read-only or lies in the exact success class with the
+recursion gate open, `Stack.Defrag` produces exactly the specified tree. -/
+theorem C19_partial_tree (m : Int) : ∀ (fuel : Nat) (s : Stk) (args : List Int), defragMax args = m →
+    s.depth < fuel → TreeOKV m (.stk .native s.cfg s.xs) → s.Defrag fuel args = .ok (compact s) := by
+  intro fuel
+  induction fuel with
+  | zero => intro s args _ h; omega
+  | succ fuel ih =>
+    intro s args hm hdepth hok
+    simp only [TreeOKV] at hok
+    obtain ⟨hnode, hkids⟩ := hok
+    have hmpos : 0 < m := by rw [← hm]; exact defragMax_pos args
+    unfold Defrag
+    by_cases hro : s.readOnly = true
+    · simp [hro, compact]
+    · simp only [hro, Bool.false_eq_true, ↓reduceIte, hm]
+      rcases hnode with h | ⟨he, hsm, hdok, hgate⟩
+      · exact absurd h hro
+      · obtain ⟨s1, hd, hxs, herr⟩ := (C19_partial_exact s hsm m he).mp hdok
+        obtain ⟨s1', hd', hcfg⟩ := C19_terminates s hsm m
+        rw [hd] at hd'; injection hd' with hd'; subst hd'
+        have hcfg1 : s1.cfg = { s.cfg with err := none } := by
+          rcases hcfg with h | ⟨e, h⟩
+          · rw [h]; cases hc : s.cfg; simp_all
+          · rw [h] at herr; simp only at herr; rw [h, herr]
+        have hs1 : s1 = ⟨{ s.cfg with err := none }, compact1 s.xs⟩ := by
+          cases s1; simp only at hcfg1 hxs; rw [hcfg1, hxs]
+        rw [hd]
+        simp only [bind, Except.bind]
+        have hcomp : compact s = ⟨{ s.cfg with err := none }, compactL s.xs⟩ := by simp [compact, hro]
+        have hnest : s1.IsNesting = (compact1 s.xs).any Stk.countsAsNested := by rw [hs1]; rfl
+        cases hn : s1.IsNesting
+        · simp only [Bool.false_eq_true, ↓reduceIte]
+          rw [hcomp, hs1]
+          rcases hgate with hg | hg
+          · rw [hnest, hg] at hn; cases hn
+          · congr 2
+            rw [compactL_eq]
+            unfold compact1
+            symm
+            have : ∀ v ∈ s.xs.filter nonNil, compactV v = v := fun v hv => hg v (List.mem_filter.mp hv).1
+            exact (List.map_congr_left this).trans (List.map_id _)
+        · simp only [↓reduceIte]
+          have hall : ∀ v ∈ s1.xs, defragElem (fun t => Defrag fuel [m] t) v = .ok (compactV v) := by
+            intro v hv
+            rw [hs1] at hv
+            have hvx : v ∈ s.xs := (List.mem_filter.mp hv).1
+            have htv := TreeOKL_mem m s.xs v hkids hvx
+            have hdv := depth_mem s.xs v hvx
+            unfold Stk.depth at hdepth
+            cases v with
+            | stk f c xs =>
+              simp only [Val.depth] at hdv
+              have := ih ⟨c, xs⟩ [m] (defragMax_idem m hmpos) (by unfold Stk.depth; simp only; omega) (by
+                simp only [TreeOKV] at htv ⊢; exact htv)
+              simp only [defragElem, this, bind, Except.bind, pure, Except.pure]
+              rw [compactV_stk]
+            | cnd f c kw op ex =>
+              cases ex with
+              | stk f2 c2 xs2 =>
+                simp only [Val.depth] at hdv
+                have := ih ⟨c2, xs2⟩ [m] (defragMax_idem m hmpos) (by unfold Stk.depth; simp only; omega) (by
+                  simp only [TreeOKV] at htv ⊢; exact htv)
+                simp only [defragElem, this, bind, Except.bind, pure, Except.pure]
+                rw [compactV_cnd_stk]
+              | _ => simp [defragElem, compactV, pure, Except.pure]
+            | _ => simp [defragElem, compactV, pure, Except.pure]
+          rw [mapM_ok _ compactV s1.xs hall]
+          rw [hcomp, hs1, compactL_eq]
+          rfl
+
 /-! ## Non-vacuity and the other documented failures, on concrete stacks -/
 
 /-- the hypotheses of `C19_partial_exact`/`C19_partial_shape` are satisfiable in a non-trivial way:
 `a _ _ _ _ _ b` (5 nils, none trailing: N = 2·0+5) is compacted correctly -/
 example : DefragOK false 50 [.leaf (.int 1), .nil, .nil, .nil, .nil, .nil, .leaf (.int 2)] = true := by decide
+
+/-- the hypotheses of `C19_partial_tree` are satisfiable by a tree that needs work below the top:
+`[ alias-stack [1 _ _ _ _ _ 2] ]` with `Defrag(9)` is compacted at the nested level -/
+example : (⟨{ kind := 1 }, [.stk .alias { kind := 4 } [.leaf (.int 1), .nil, .nil, .nil, .nil, .nil, .leaf (.int 2)]]⟩ : Stk).Defrag 3 [9]
+    = .ok ⟨{ kind := 1 }, [.stk .alias { kind := 4 } [.leaf (.int 1), .leaf (.int 2)]]⟩ := by
+  have h := C19_partial_tree 9 3
+    ⟨{ kind := 1 }, [.stk .alias { kind := 4 } [.leaf (.int 1), .nil, .nil, .nil, .nil, .nil, .leaf (.int 2)]]⟩ [9]
+    (by decide) (by decide)
+    (by
+      simp only [TreeOKV, TreeOKL, and_true]
+      refine ⟨Or.inr ⟨rfl, by unfold SmallLen; rw [pow62]; decide, by decide, Or.inl (by decide)⟩,
+              Or.inr ⟨rfl, by unfold SmallLen; rw [pow62]; decide, by decide, Or.inr ?_⟩⟩
+      intro v hv
+      simp only [List.mem_cons, List.mem_nil_iff, or_false] at hv
+      rcases hv with rfl | rfl | rfl | rfl | rfl | rfl | rfl <;> rfl)
+  rw [h]
+  rfl
 
 /-- … and the witness of the counterexample is outside the class -/
 example : DefragOK false 50 witness.xs = false := by decide
